@@ -46,7 +46,7 @@ package formatter
 
 // ---- C05: alignment column and well-formed edits; C04: lines that are not postings only lose trailing blanks ----
 
-//@ specdef dispLen(p ast.Posting) int := rcount(p.Account.Name) + ite(p.Virtual == 1 || p.Virtual == 2, 2, 0)
+//@ specdef dispLen(p ast.Posting) int := rcount(p.Account.Name) + ite(p.Virtual == 1 || p.Virtual == 2, 2, 0) + ite(p.Status == 1 || p.Status == 2, 2, 0)
 
 // The global alignment column leaves at least two blanks after the longest account (width counted in characters).
 //@ func calculateGlobalAlignmentColumnWithIndent
